@@ -158,6 +158,16 @@ CHECKS = {
         "Heuristic form detection is known to misclassify two free layouts (listed as known findings); continuation-related differences are classified as in C13.",
         "DESIGN.md §3 C14",
     ),
+    "C10": (
+        "exploration",
+        "Hypothesis-generated sync-event histories over generated multi-file workspaces, differential against a fresh server on the same directory",
+        "Histories of open / full or ranged change to a semantic variant / save / close / create / delete+close / external modification+save over a "
+        "generated workspace plus a hand-written bundle (INCLUDE, submodule, cpp, EXTENDS across files), with intermediate query batteries to populate "
+        "caches; after every open document has been saved the normalised battery (indexed files, diagnostics, outline, workspace symbols, definition, "
+        "hover, references, completion) of the long-lived server must equal that of a freshly initialised one.",
+        "Deletions are communicated by closing the document; plain .f90 files do not share macro names; the battery samples up to 30 identifiers per file.",
+        "DESIGN.md §3 C10",
+    ),
 }
 
 NOT_YET = "check not built yet in this session (work in progress; see DESIGN.md §3 for the planned generator and oracle)"
